@@ -200,7 +200,7 @@ def run(ch: Checker) -> None:
         for x in ast.walk(e):
             if isinstance(x, ast.Attribute) and x.attr == opt and isinstance(x.value, ast.Name):
                 return True
-            if isinstance(x, ast.Call) and isinstance(x.func, ast.Attribute) and x.func.attr == 'get' and x.args and isinstance(x.args[0], ast.Constant) and x.args[0].value == opt:
+            if isinstance(x, ast.Call) and isinstance(x.func, ast.Attribute) and x.func.attr in ('get', 'pop') and x.args and isinstance(x.args[0], ast.Constant) and x.args[0].value == opt:
                 return True
         return False
 
@@ -237,8 +237,11 @@ def run(ch: Checker) -> None:
         shown: List[str] = []
 
         def flat(e: ast.AST) -> None:
-            if not (isinstance(e, ast.Name) and (e.id in auth_lists or e.id in req_lists)):
-                e = through(e)
+            for _ in range(6):          # read through named temporaries one step at a time, stopping at a list whose role is known
+                if isinstance(e, ast.Name) and e.id not in auth_lists and e.id not in req_lists and len(defs.get(e.id, [])) == 1:
+                    e = defs[e.id][0]
+                else:
+                    break
             if isinstance(e, ast.BinOp) and isinstance(e.op, ast.Add):
                 flat(e.left)
                 flat(e.right)
@@ -287,7 +290,13 @@ def run(ch: Checker) -> None:
     for st in walk_no_nested(init.node):
         if isinstance(st, ast.Assign) and any(isinstance(t_, ast.Attribute) and t_.attr == 'auth_code' for t_ in st.targets):
             code_locals |= {x.id for x in ast.walk(st.value) if isinstance(x, ast.Name) and x.id in defs}
-    code_sites = [(st, (st.value)) for st in walk_no_nested(init.node) if isinstance(st, (ast.Assign, ast.AnnAssign))
+    for _ in range(4):                  # another local that is merely assigned from a code local (e.g. the result of an inlined helper) is one too
+        for nm_, ds_ in defs.items():
+            if nm_ in code_locals:
+                for d_ in ds_:
+                    if isinstance(d_, ast.Name) and d_.id in defs:
+                        code_locals.add(d_.id)
+    code_sites = [(st, (st.value)) for st in walk_no_nested(init.node) if isinstance(st, (ast.Assign, ast.AnnAssign)) and not isinstance(st.value, ast.Name)
                   and isinstance((st.targets[0] if isinstance(st, ast.Assign) else st.target), ast.Name)
                   and (st.targets[0] if isinstance(st, ast.Assign) else st.target).id in code_locals and st.value is not None and norm(st.value) != 'None']   # type: ignore[union-attr]
 
